@@ -13,6 +13,7 @@ interpret is an AnalysisError, never a guess.  Constants are folded.
 import ast
 
 from sa import core
+from sa.formula import satisfiable
 from sa.formula import F, TRUE, FALSE, atom, implies, equivalent  # noqa: F401
 
 
@@ -92,6 +93,28 @@ class TupleV:
 
   def __init__(self, items):
     self.items = items
+
+
+class SeqV(SetV):
+  """An ordered collection: consecutive segments, each described by the
+  membership formula of its elements (order inside a segment: sorted)."""
+
+  def __init__(self, segs):
+    f = FALSE
+    for g in segs:
+      f = f | g
+    super().__init__(f)
+    self.segs = list(segs)
+
+
+class CountV:
+  """len() of the collection with membership formula f."""
+
+  def __init__(self, f):
+    self.f = f
+
+  def __repr__(self):
+    return 'Count(%s)' % self.f
 
 
 class Ev:
@@ -196,6 +219,17 @@ class Ev:
     if isinstance(e, ast.BinOp):
       l = self.ev(e.left, env, depth)
       r = self.ev(e.right, env, depth)
+      if isinstance(e.op, ast.Add) and isinstance(l, SeqV) and isinstance(r, SeqV):
+        return SeqV(l.segs + r.segs)
+      if isinstance(e.op, ast.Sub) and isinstance(l, CountV) and isinstance(r, CountV):
+        # |A| - |B| = |A \ B| exactly when B is a subset of A
+        if implies(r.f, l.f)[0]:
+          return CountV(l.f & ~r.f)
+        return Opaque(core.norm(e))
+      if isinstance(e.op, ast.Add) and isinstance(l, CountV) and isinstance(r, CountV):
+        if not satisfiable(l.f & r.f):
+          return CountV(l.f | r.f)
+        return Opaque(core.norm(e))
       if isinstance(l, SetV) and isinstance(r, SetV):
         if isinstance(e.op, ast.BitOr):
           return SetV(l.f | r.f)
@@ -235,6 +269,11 @@ class Ev:
       return Opaque(core.norm(e))
     if isinstance(e, (ast.GeneratorExp, ast.ListComp, ast.SetComp)):
       return self.comprehension(e, env, depth)
+    if isinstance(e, ast.DictComp) and len(e.generators) == 1 and \
+        core.norm(e.key) == core.norm(e.generators[0].target):
+      # {s: f(s) for s in S if c}: a table whose key set is {s in S | c}
+      g = e.generators[0]
+      return self.comprehension(ast.SetComp(elt=e.key, generators=[g]), env, depth)
     if isinstance(e, ast.Call):
       return self.call(e, env, depth)
     if isinstance(e, (ast.BoolOp, ast.Compare)) or (
@@ -286,6 +325,10 @@ class Ev:
       if not e.args:
         return SetV(FALSE)
       v = self.ev(e.args[0], env, depth)
+      if f.id == 'sorted' and isinstance(v, SetV):
+        return self.sorted_(e, v, env, depth)
+      if f.id == 'reversed' and isinstance(v, SeqV):
+        return SeqV(v.segs[::-1]) if len(v.segs) > 1 else v
       if isinstance(v, TupleV) and all(isinstance(x, SetV) for x in v.items):
         out = FALSE
         for x in v.items:
@@ -315,6 +358,10 @@ class Ev:
           return BoolV(atom('%s[· %s %s]' % (f.id.upper(), rel, sv.f)))
       return BoolV(atom('%s[%s]' % (f.id.upper(), core.norm(e.args[0]))))
     if isinstance(f, ast.Name) and f.id == 'len':
+      if len(e.args) == 1:
+        v = self.ev(e.args[0], env, depth)
+        if isinstance(v, SetV):
+          return CountV(v.f)
       return Opaque(core.norm(e))
     if isinstance(f, ast.Attribute):
       base = f.value
@@ -342,6 +389,44 @@ class Ev:
         if h is not None and depth < self.max_depth:
           return self.inline(h, e, env, depth)
     return Opaque(core.norm(e))
+
+  def sorted_(self, e, v, env, depth):
+    """sorted(S [, key=k] [, reverse=const]): with a key whose first component
+    is a membership test the result has two segments (False sorts first)."""
+    key = [k.value for k in e.keywords if k.arg == 'key']
+    rev = [k.value for k in e.keywords if k.arg == 'reverse']
+    if any(k.arg not in ('key', 'reverse') for k in e.keywords):
+      return SetV(v.f)
+    if rev and not (isinstance(rev[0], ast.Constant) and isinstance(rev[0].value, bool)):
+      return SetV(v.f)
+    flip = bool(rev and rev[0].value)
+    if not key:
+      return SeqV([v.f])
+    k = key[0]
+    if isinstance(k, ast.Name):
+      defs = [n for n in ast.walk(self.fi.node) if isinstance(n, ast.FunctionDef)
+              and n.name == k.id and n is not self.fi.node]
+      if len(defs) == 1 and len(defs[0].body) >= 1 and isinstance(
+          defs[0].body[-1], ast.Return) and all(
+              isinstance(s, ast.Expr) and isinstance(s.value, ast.Constant)
+              for s in defs[0].body[:-1]) and len(defs[0].args.args) == 1:
+        k = ast.Lambda(args=defs[0].args, body=defs[0].body[-1].value)
+    if not isinstance(k, ast.Lambda) or len(k.args.args) != 1:
+      return SetV(v.f)       # an order this evaluator cannot describe
+    p = k.args.args[0].arg
+    first = k.body.elts[0] if isinstance(k.body, ast.Tuple) and k.body.elts else k.body
+    env2 = dict(env)
+    env2[p] = Elem(p)
+    saved = set(self.elem_names)
+    self.elem_names.add(p)
+    try:
+      c = self.cond(first, env2, depth)
+    finally:
+      self.elem_names = saved
+    if any(a.startswith('OPAQUE[') for a in c.atoms):
+      return SetV(v.f)
+    segs = [v.f & ~c, v.f & c]
+    return SeqV(segs[::-1] if flip else segs)
 
   def inline(self, h, call, env, depth):
     ps = h.params()
